@@ -105,7 +105,8 @@ func checkC10(p *core.Program, r *core.Report) {
 	r.AnalysedFn(core.FuncName(enc), core.FuncName(dec))
 	// ---- encoder
 	eev := eng.NewEval(enc)
-	var raw, marshalArg *tf.Term
+	var raw, marshalArg, rawBuf *tf.Term
+	var rawInstr ssa.Instruction
 	rawIsRaw := false
 	var wireT *types.Named
 	for _, e := range eev.Events() {
@@ -113,6 +114,7 @@ func checkC10(p *core.Program, r *core.Report) {
 		switch {
 		case t.K == tf.KCall && (strings.HasSuffix(t.Name, ").WriteRawTo") || strings.HasSuffix(t.Name, ").WriteTo")) && len(t.Args) == 2:
 			rawIsRaw = strings.HasSuffix(t.Name, ").WriteRawTo")
+			rawBuf, rawInstr = t.Args[1], e.Instr
 			// the buffer
 			for _, e2 := range eev.Events() {
 				if callNameHasSuffix(e2.Term, "bytes.Buffer).Bytes") && tf.Eq(e2.Term.Args[0], t.Args[1]) {
@@ -131,6 +133,19 @@ func checkC10(p *core.Program, r *core.Report) {
 		r.Violation("O10.1", ename+": raw serialisation", p.Pos(enc.Pos()), "the encoder does not serialise the proof into a bytes.Buffer with WriteRawTo")
 		return
 	}
+	// the buffer starts empty: a fresh local bytes.Buffer, or one that is Reset before the proof is written into it (a
+	// recycled buffer still holds the previous proof's bytes, and the chunks are cut from its start)
+	emptyBuf := rawBuf != nil && (rawBuf.K == tf.KAlloc || rawBuf.K == tf.KZero)
+	if !emptyBuf && rawBuf != nil {
+		for _, e2 := range eev.Events() {
+			if callNameHasSuffix(e2.Term, "bytes.Buffer).Reset") && len(e2.Term.Args) == 1 && tf.Eq(e2.Term.Args[0], rawBuf) && instrBefore(e2.Instr, rawInstr) {
+				if on, inLoop := e2.OnEveryPathToReturn(); on || !inLoop {
+					emptyBuf = true
+				}
+			}
+		}
+	}
+	r.Check(emptyBuf, "O10.1", ename+": serialisation buffer starts empty", p.Pos(enc.Pos()), "the proof is written into a fresh (or Reset) buffer", "the proof is written into "+describe(rawBuf)+", which is neither a fresh local buffer nor Reset first: with a recycled buffer the eight chunks are cut from an earlier proof's bytes")
 	r.Check(rawIsRaw, "O10.1", ename+": raw serialisation", p.Pos(enc.Pos()), "proof.WriteRawTo(&buf): uncompressed affine coordinates", "the encoder uses the compressed WriteTo serialisation: the chunks are not the eight affine coordinates")
 	if marshalArg == nil || marshalArg.K != tf.KRecord || wireT == nil {
 		r.Violation("O10.1", ename+": JSON document", p.Pos(enc.Pos()), "the encoder does not marshal a struct of coordinate slots (got %s)", describe(marshalArg))
